@@ -16,6 +16,7 @@ Violation keys:  <law>:<region>:<units of a>,<units of b>
   a law suffixed @<config> was observed in a non-default registry configuration (autoconvert, autoconvert-live)
   region in both-zero-offset   (both magnitudes zero and an offset unit involved: F1)
             delta-vs-offset    (an offset unit against a delta_ unit: F85)
+            stale-state         (history only: an object changed in place compares / hashes unlike a fresh quantity with its magnitude, units)
             zero-type           (number-rule only: the verdict against a bare zero depends on the Python type spelling the zero)
             system-<name>       (hash only: under default system <name>, or 'switch:<name>' for a live default_system switch)
             context-<name>      (cross-dim only: ordering across dimensions while context <name> is active)
@@ -604,6 +605,113 @@ def run_bare_zeros(ck, fails, thorough):
                     ck.case(key=("bare-zero", nit.__name__, units_text, x, zname), n=12)
     ck.count("bare-zero comparisons", n)
 
+
+# ------------------------------------------------------------------ histories: a quantity object after in-place steps (pint alone)
+HIST_START = [(500, "nanometer"), (0, "kelvin"), (300, "kelvin"), (2, "electron_volt"), (3, "terahertz"), (0, "meter"), (F(3, 2), "inch")]
+HIST_TARGETS = {"sp": ["terahertz", "hertz", "electron_volt", "joule", "nanometer", "meter"],
+                "boltzmann": ["electron_volt", "joule", "kelvin", "millikelvin"],
+                None: []}
+HIST_PARTNERS = [(1, "hertz"), (1, "meter"), (0, "kelvin"), (0, "joule"), (0, "meter"), (0, "hertz"), (1, "joule"), (300, "kelvin"),
+                 (600, "terahertz"), (F(1, 2), "micrometer"), (0, "electron_volt")]
+
+
+def hist_apply(ureg, q, step):
+    """one in-place step on the object q; returns a label or None if pint refuses it (then q is unchanged)"""
+    kind = step[0]
+    try:
+        if kind == "touch":
+            _ = q.dimensionality
+            _ = q.dimensionless
+        elif kind == "ito":                      # plain rescale / conversion through whatever context is enabled
+            q.ito(step[1])
+        elif kind == "ito-ctx":                  # context passed explicitly
+            q.ito(step[1], step[2])
+        elif kind == "ito-base":
+            q.ito_base_units()
+        elif kind == "ito-root":
+            q.ito_root_units()
+        elif kind == "ito-reduced":
+            q.ito_reduced_units()
+        elif kind == "imul":
+            q *= ureg.Quantity(*step[1])
+        elif kind == "idiv":
+            q /= ureg.Quantity(*step[1])
+        elif kind == "ipow":
+            q **= step[1]
+        return True
+    except Exception:      # noqa: BLE001 — a refused step is not this oracle's business
+        return False
+
+
+def hist_observe(q, partners):
+    out = []
+    for p in partners:
+        out.append((outcome(lambda: q == p), outcome(lambda: p == q), outcome(lambda: q != p), outcome(lambda: q < p),
+                    outcome(lambda: q <= p), outcome(lambda: q > p), outcome(lambda: q >= p), outcome(lambda: p < q)))
+    return out
+
+
+def hist_check(ureg, q, where, desc, fails, rp):
+    """q (an object with a history) must compare and hash like a fresh quantity with the same magnitude and units"""
+    fresh = ureg.Quantity(q.magnitude, q.units)
+    partners = [ureg.Quantity(*p) for p in HIST_PARTNERS]
+    a, b = hist_observe(q, partners), hist_observe(fresh, partners)
+    names = ["q == p", "p == q", "q != p", "q < p", "q <= p", "q > p", "q >= p", "p < q"]
+    for p, ra, rb in zip(HIST_PARTNERS, a, b):
+        for nm, x, y in zip(names, ra, rb):
+            if x != y:
+                fails.append((f"history:stale-state:{where}", f"after {desc} ({where} the context block) q = {q!s}: {nm} with p = {p[0]} {p[1]} gives {x}, "
+                              f"but a fresh Quantity({q.magnitude}, '{q.units}') gives {y}", rp))
+                return
+    h = outcome(lambda: hash(q) == hash(fresh) and bool(q == fresh) and (fresh in {q}))
+    if h is not True and not isnan(q.magnitude):
+        fails.append((f"history:stale-state:{where}", f"after {desc} ({where} the context block) q = {q!s}: (hash(q) == hash(fresh) and q == fresh and fresh in {{q}}) "
+                      f"is {h} for fresh = Quantity({q.magnitude}, '{q.units}')", rp))
+
+
+def run_histories(ck, fails, thorough, seed):
+    """quantity objects whose dimensionality was read, then changed in place (through an enabled context, an explicit
+    context, base/root/reduced units, *=, /=, **=): ==, ordering and hash must be those of the current (magnitude, units)"""
+    rng = random.Random(seed + 8)
+    ureg = regk.registry(F)
+    n = 0
+    plans = []
+    for ctx in ("sp", "boltzmann", None):
+        for start in HIST_START:
+            for tgt in HIST_TARGETS[ctx]:
+                for explicit in (False, True):
+                    plans.append((ctx, start, [("touch",), ("ito-ctx", tgt, ctx) if explicit else ("ito", tgt)], explicit))
+    for _ in range(400 if thorough else 120):
+        ctx = rng.choice(["sp", "boltzmann", None])
+        steps = [("touch",)]
+        for _ in range(rng.randint(1, 4)):
+            k = rng.choice(["ito", "ito", "ito-ctx", "ito-base", "ito-root", "ito-reduced", "imul", "idiv", "ipow", "touch"])
+            if k in ("ito", "ito-ctx"):
+                c2 = ctx or rng.choice(["sp", "boltzmann"])
+                tgt = rng.choice(HIST_TARGETS[c2] + ["centimeter", "kilohertz"])
+                steps.append((k, tgt, c2) if k == "ito-ctx" else (k, tgt))
+            elif k in ("imul", "idiv"):
+                steps.append((k, rng.choice([(2, "second"), (3, "meter"), (1, "hertz"), (F(1, 2), "kelvin"), (2, "")])))
+            elif k == "ipow":
+                steps.append((k, rng.choice([2, -1, 1])))
+            else:
+                steps.append((k,))
+        plans.append((ctx, rng.choice(HIST_START), steps, None))
+    for ctx, start, steps, _ in plans:
+        q = ureg.Quantity(*start)
+        desc = f"Q({start[0]}, '{start[1]}')" + "".join("; " + " ".join(str(t) for t in st) for st in steps) + (f" with context {ctx} enabled on the registry" if ctx else "")
+        rp = {"law": "history", "context": ctx, "start": [str(start[0]), start[1]], "steps": [[str(t) for t in st] for st in steps]}
+        if ctx:
+            with ureg.context(ctx):
+                done = [hist_apply(ureg, q, st) for st in steps]
+                hist_check(ureg, q, "inside", desc, fails, rp)
+        else:
+            done = [hist_apply(ureg, q, st) for st in steps]
+        hist_check(ureg, q, "after", desc, fails, rp)
+        n += 1
+        ck.case(key=("history", ctx, str(start), str(steps)), n=2 * (8 * len(HIST_PARTNERS) + 1))
+    ck.count("histories", n)
+
 # ------------------------------------------------------------------ the run
 def detect_quirks(w):
     """replay the _refuted witnesses on the implementation to select the model's switches"""
@@ -632,6 +740,8 @@ def run(ck):
         "bare zeros: int, float +-0.0, Fraction, four Decimal spellings, numpy int64/float64/float32/uint8, bool False, complex 0j, in the "
         "float, Fraction and Decimal registries, both operand orders, six operators; the expected verdict is Python's own on the bare "
         "magnitudes (so Fraction-vs-Decimal TypeError is Python's, not pint's)",
+        "histories (dimensionality read, then ito through an enabled or explicit context sp/boltzmann, ito_base/root/reduced_units, *=, /=, **=): "
+        "the object must compare and hash like a fresh Quantity(magnitude, units), inside and after the context block — oracle on pint alone",
         "logarithmic units are outside the model (C06); offset units in compound position only through their error class",
         "the model hashes in root units of the default system only; under the other default systems (cgs, imperial, US, SI, atomic, "
         "Planck, None, and default_system assigned on a live registry before first use) == => equal hash / set / dict lookup is an "
@@ -964,6 +1074,10 @@ def run(ck):
                               {"law": "float", "a": [repr(x), a], "b": [repr(y), b]}))
         ck.count("float-order", nfl)
 
+        # ---- (14) histories: objects changed in place (enabled / explicit contexts, base/root/reduced units, *=, /=, **=)
+        stage[0] = '(14) histories of in-place steps'
+        run_histories(ck, fails, thorough, ck.seed)
+
         # ---- (13) bare zeros of every numeric type, three registries, both operand orders, six operators (pint alone);
         #      and the same zeros through the model (every spelling is [ONum (Fin 0)])
         stage[0] = '(13) bare zeros of every numeric type'
@@ -1098,6 +1212,29 @@ def replay(ck, path):
         qa, qb = ureg.Quantity(*rp["a"]), ureg.Quantity(*rp["b"])
         if qa == qb and qb == qa and not (hash(qa) == hash(qb) and qb in {qa}):
             fl.append((data.get("key", "hash"), "a == b but hash / set lookup disagree"))
+    elif rp["law"] == "history":
+        ureg = regk.registry(F)
+        q = ureg.Quantity(mparse(rp["start"][0]), rp["start"][1])
+
+        def step(st):
+            if st[0] in ("imul", "idiv"):
+                import ast as _ast
+                m_, u_ = st[1].strip("()").split(", ", 1)
+                return (st[0], (eval(m_, {"Fraction": F}), _ast.literal_eval(u_)))
+            if st[0] == "ipow":
+                return (st[0], int(st[1]))
+            return tuple(st)
+        steps = [step(st) for st in rp["steps"]]
+        if rp["context"]:
+            with ureg.context(rp["context"]):
+                for st in steps:
+                    hist_apply(ureg, q, st)
+                hist_check(ureg, q, "inside", "replayed history", fl, None)
+        else:
+            for st in steps:
+                hist_apply(ureg, q, st)
+        hist_check(ureg, q, "after", "replayed history", fl, None)
+        fl = [(k, d) for k, d, _ in fl]
     elif rp["law"] == "zero-type":
         from decimal import Decimal as D
         nit = {"float": float, "Fraction": F, "Decimal": D}[rp["registry"]]
